@@ -401,5 +401,6 @@ def run(ctx: core.Ctx) -> int:
     _c15.gen_pure(ctx, {"python": "py/formak/python.py", "common": "py/formak/common.py"}, rule="PY-PURE", floor=40)
     from . import c01 as _c01
     _c01.py_float_buffers(ctx, ctx.parse("py/formak/python.py"), "py/formak/python.py")
+    _c01.py_once(ctx, ctx.parse("py/formak/python.py"), "py/formak/python.py")
     return core.finish(ctx, explanation="def-use inlining of the reference model's module-level assignments into terms; wiring compared modulo "
                                         "commutativity", **META)
